@@ -118,6 +118,27 @@ CHECKS = {
         note="no reference values; 1e-9 relative scaled by |a|+|b|+1",
         design="§4 C11",
     ),
+    "C04": dict(
+        engine="E3-history-explorer",
+        technique="exhaustive identification of the hidden draw of every (seed, period, variable, agent) triple by 30 adaptive black-box queries of the real simulate (bisection on the transition row), over all configurations of a bounded (seed, T, agents, variables, labels) space; exact oracles on the identified thresholds",
+        text="With a transition depending on (_period, g) and one distinct g per agent every (period, variable, agent) triple reads its own row, so the drawn label as a function of p0 is a step function whose threshold is identified to 2^-30 through the real simulate (about 8800 calls). For 63 configurations (3 seeds x T 2..4 x 1,2,5,40 agents x 1-2 variables x 2-3 labels) the check decides exactly: a single threshold with the semantically fixed direction on a lattice of rows including zero and degenerate rows (inverse CDF; zero-probability labels never drawn; 3-label rows against the cumulative sums), pairwise distinct thresholds across agents, periods, variables and seeds (no key reuse), thresholds invariant under permuting other agents' data, changing parameters, the other variable's array or the agent's own non-dependency state, same seed = identical frames, other seed = identical period 0.",
+        note="uniformity of the underlying draws is JAX's PRNG contract (trusted); an auxiliary Kolmogorov statistic over 720 thresholds guards against monotone distortions and can fail the run only at p < 1e-9",
+        design="§4 C04",
+    ),
+    "C08": dict(
+        engine="E3-history-explorer",
+        technique="exhaustive enumeration of all permutations, subsets, single duplications and key orders of a 4-agent batch for every model of the family, real simulation; differential oracle against the base batch",
+        text="For every Family_1 model a batch of four agents (on- and off-grid, sharing restricted resp. continuous states pairwise) is simulated, followed by all 24 permutations, all 15 non-empty subsets, all 4 duplications and all key orders of the initial_states mapping (about 49 simulate calls per model); every agent's path (value, choices, states in every period; period 0 only for stochastic models) must equal its path in the base batch.",
+        note="labels and choices exact, floats 1e-12; K5 (non-broadcast-safe transition functions) is reported under C03 and excluded here",
+        design="§4 C08",
+    ),
+    "C09": dict(
+        engine="E3-history-explorer",
+        technique="breadth-first enumeration of all call sequences (depth 2, thorough 3) over a 6-letter call alphabet on one live function object per (model, jit, target), all ordered pairs of model variants sharing every name built in one process, and rebuilds in fresh interpreters under 16 hash seeds; cross-history digest comparison",
+        text="504 call sequences (two parameter sets, python/numpy/jax leaves, two batches, two seeds, a params dict mutated in place between calls) on live solve and solve_and_simulate objects of three models with jit on and off, 20 histories of five model variants that share all variable, function and parameter names (other grid type with the same bounds, other coefficient, other auxiliary body, other filter), and 48 fresh interpreters under PYTHONHASHSEED 0..15: the bytes of the result of every (model, call) must be identical in every history, process and hash seed, and params pytrees (structure, leaf identity, leaf bytes) and the model object must be unchanged after every call.",
+        note="a bounded set of hash seeds; observed argument orders of the set-derived argument list are counted in the evidence; correctness of the fresh results is C01/C02's business",
+        design="§4 C09",
+    ),
 }
 
 NOT_APPLICABLE = {
